@@ -481,8 +481,10 @@ def jac_oracle(case):
 
     common.setup_scico()
     F, u, v, w, cplx = _build_operator(case)
-    dt = np.complex128 if cplx else np.float64
-    U, V, W = (snp.array(np.asarray(a if cplx else np.real(a), dtype=dt)) for a in (u, v, w))
+    dti = np.dtype(F.input_dtype)
+    dto = np.dtype(F.output_dtype)
+    cast = lambda a, d: snp.array(np.asarray(a if np.iscomplexobj(np.zeros(1, d)) else np.real(a), dtype=d))  # noqa: E731
+    U, V, W = cast(u, dti), cast(v, dti), cast(w, dto)
     Fu, Jv = F.jvp(U, V)
     h = 2.0**-10
     fd = (np.asarray(F(U + h * V)) - np.asarray(F(U - h * V))) / (2 * h)
@@ -493,7 +495,8 @@ def jac_oracle(case):
 
     Gm = F.vjp(U, conjugate=True)[1]
     lhs = float(np.real(np.sum(np.conj(np.asarray(W)) * np.asarray(Jv))))
-    Jop = linop.jacobian(F, U, include_eval=bool(case.get("include_eval")))
+    inc_ = bool(case.get("include_eval")) and not case.get("mixed")  # mixed dtypes + include_eval: adj is rejected (recorded)
+    Jop = linop.jacobian(F, U, include_eval=inc_)
     ja, je = Jop.adj(W), Jop(V)
     ja = ja.arrays[-1] if hasattr(ja, "arrays") else ja
     je = je.arrays[-1] if hasattr(je, "arrays") else je
@@ -514,6 +517,22 @@ def _build_operator(case):
     from scico.operator import Operator
 
     n, m, cplx = case["n"], case["m"], case["cplx"]
+    mixed = case.get("mixed")
+    if mixed == "r2c":
+        # real input array, complex output:  F(x) = A x + (C x)^2 + c  with complex A, C, c
+        A, C = (G.dec(case[k], (m, n), True) for k in ("A", "C"))
+        c0 = G.dec(case["c0"], (m,), True)
+        Aj, Cj, cj = (jnp.asarray(a, dtype=np.complex128) for a in (A, C, c0))
+        F = Operator((n,), output_shape=(m,), eval_fn=lambda x: Aj @ x + (Cj @ x) ** 2 + cj,
+                     input_dtype=np.float64, output_dtype=np.complex128)
+        return F, G.dec(case["u"], (n,)), G.dec(case["v"], (n,)), G.dec(case["w"], (m,)), cplx
+    if mixed == "c2r":
+        # complex input, real output:  F(x) = Re(A x) + |C x|^2
+        A, C = (G.dec(case[k], (m, n), True) for k in ("A", "C"))
+        Aj, Cj = (jnp.asarray(a, dtype=np.complex128) for a in (A, C))
+        F = Operator((n,), output_shape=(m,), eval_fn=lambda x: jnp.real(Aj @ x) + jnp.abs(Cj @ x) ** 2,
+                     input_dtype=np.complex128, output_dtype=np.float64)
+        return F, G.dec(case["u"], (n,)), G.dec(case["v"], (n,)), G.dec(case["w"], (m,)), cplx
     dt = np.complex128 if cplx else np.float64
     A, B, C = (G.dec(case[k], (m, n), cplx) for k in ("A", "B", "C"))
     c0 = G.dec(case["c0"], (m,), cplx)
@@ -606,6 +625,86 @@ def stream_jac(ctx, model):
             Gtm = np.stack([np.asarray(Gt(snp.array(np.asarray(bo[i], dtype=dt)))) for i in range(m)], axis=1)
             if not (common.allclose(Gtm.real, Jc.T.real, TOLK) and common.allclose(Gtm.imag, Jc.T.imag, TOLK)):
                 ctx.disagree("jac.transpose.matrix", case, G.enc(Gtm), G.enc(Jc.T), oracle=jac_oracle)
+
+
+def stream_jac_mixed(ctx, model):
+    """operators whose input and output dtypes differ in kind: real -> complex (a real image and
+    complex measurements) and complex -> real"""
+    import scico
+    import scico.numpy as snp
+    from scico import linop
+
+    rng = ctx.rng
+    for _ in range(ctx.n(24, 200)):
+        mixed = "r2c" if rng.random() < 0.6 else "c2r"
+        n, m = int(rng.integers(1, 5)), int(rng.integers(1, 5))
+        A, C = G.dy(rng, (m, n), True), (G.dy(rng, (m, n), True) if rng.random() < 0.6 else np.zeros((m, n), dtype=np.complex128))
+        c0 = G.dy(rng, (m,), True)
+        rin, rout = mixed == "r2c", mixed == "c2r"
+        u, v = G.dy(rng, (n,), not rin), G.dy(rng, (n,), not rin)
+        w = G.dy(rng, (m,), not rout)
+        conjugate = bool(rng.random() < 0.7)
+        inc = bool(rng.random() < 0.5)
+        case = {"n": n, "m": m, "cplx": True, "mixed": mixed, "A": G.enc(A), "B": G.enc(np.zeros((m, n))), "C": G.enc(C),
+                "c0": G.enc(c0), "u": G.enc(u), "v": G.enc(v), "w": G.enc(w), "conjugate": conjugate, "include_eval": inc}
+        F, _, _, _, _ = _build_operator(case)
+        dti, dto = np.dtype(F.input_dtype), np.dtype(F.output_dtype)
+        U, V, W = snp.array(np.asarray(u, dtype=dti)), snp.array(np.asarray(v, dtype=dti)), snp.array(np.asarray(w, dtype=dto))
+        if mixed == "r2c":
+            P, Q = A + 2 * np.diag(C @ u) @ C, np.zeros((m, n))
+            Fu_np = A @ u + (C @ u) ** 2 + c0
+        else:
+            # J d = Re(A d) + 2 Re(conj(Cu) . C d) = P d + Q conj d with P = (A + 2 diag(conj(Cu)) C)/2, Q = conj(P)
+            P = 0.5 * (A + 2 * np.diag(np.conj(C @ u)) @ C)
+            Q = np.conj(P)
+            Fu_np = np.real(A @ u) + np.abs(C @ u) ** 2
+        got = model.call("jac", n=n, m=m, P=G.cmat(P), Q=G.cmat(Q), Fu=G.cv(Fu_np), v=G.cv(v), w=G.cv(w),
+                         conjugate=conjugate, include_eval=inc, real_input=rin, in_complex=not rin, out_complex=not rout)
+        ctx.case({"tag": "jac_mixed", "kind": mixed, "n": n, "m": m, "conjugate": conjugate, "include_eval": inc},
+                 ("jac_mixed", mixed, n, m, conjugate, inc, bool(np.any(C))))
+        ctx.count(f"jac_mixed:{mixed}:conjugate={conjugate}")
+        Fu, Jv = F.jvp(U, V)
+        ok = _cmp_vec(ctx, "jac.jvp.value", case, Fu, G.from_cv(G.cv(Fu_np)), jac_oracle)
+        ok = ok and _cmp_vec(ctx, "jac.jvp", case, Jv, G.from_cv(got["jvp"]), jac_oracle)
+        Gw = F.vjp(U, conjugate=conjugate)[1](W)
+        if np.asarray(Gw).dtype != dti:
+            ctx.disagree("jac.vjp.dtype", case, str(np.asarray(Gw).dtype), str(dti), oracle=jac_oracle)
+            continue
+        ok = ok and _cmp_vec(ctx, "jac.vjp", case, Gw, G.from_cv(got["vjp"]), jac_oracle)
+        ok = ok and _cmp_vec(ctx, "jac.cvjp", case, scico.cvjp(F, U)[1](W)[0], G.from_cv(got["cvjp"]), jac_oracle)
+        J = linop.jacobian(F, U, include_eval=inc)
+        try:
+            jadj_impl = J.adj(W)
+            jadj_err = None
+        except Exception as e:  # noqa: BLE001
+            jadj_impl, jadj_err = None, common.err_kind(e)
+        if "err" in got["jadj"] or jadj_err is not None:
+            ctx.count("jac_mixed:include_eval-adj-rejected")
+            if got["jadj"].get("err") != jadj_err:
+                ctx.disagree("jac.jacobian.adj.reject", case, jadj_err, got["jadj"].get("err", "a value"), oracle=jac_oracle)
+                continue
+            pairs = (("jac.jacobian.eval", J(V), got["jeval"]["blocks"]),)
+        else:
+            pairs = (("jac.jacobian.eval", J(V), got["jeval"]["blocks"]), ("jac.jacobian.adj", jadj_impl, got["jadj"]["blocks"]))
+        for name, impl, modb in pairs:
+            blocks = list(impl.arrays) if hasattr(impl, "arrays") else [impl]
+            if len(blocks) != len(modb):
+                ctx.disagree(name + ".blocks", case, len(blocks), len(modb), oracle=jac_oracle)
+                continue
+            for b, mb_ in zip(blocks, modb):
+                ok = ok and _cmp_vec(ctx, name, case, b, G.from_cv(mb_), jac_oracle)
+        if not ok:
+            continue
+        # adjointness exactly as (real) matrices on all basis directions of the declared dtypes
+        bi, bo = _basis(n, not rin), _basis(m, not rout)
+        Jcols = [np.asarray(F.jvp(U, snp.array(np.asarray(e, dtype=dti)))[1]) for e in bi]
+        Gc = F.vjp(U, conjugate=True)[1]
+        Gcols = [np.asarray(Gc(snp.array(np.asarray(e, dtype=dto)))) for e in bo]
+        JR = _real_rep(bi, Jcols) if not rout else np.real(np.stack(Jcols, axis=1))
+        GR = _real_rep(bo, Gcols) if not rin else np.real(np.stack(Gcols, axis=1))
+        ctx.count("jac:basis-pairs", JR.size)
+        if not common.allclose(GR, JR.T, TOLK):
+            ctx.disagree("jac.adjoint.matrix", case, GR.tolist(), JR.T.tolist(), oracle=jac_oracle)
 
 
 def stream_function(ctx, model):
@@ -725,12 +824,26 @@ def stream_function(ctx, model):
 # Hessian of the squared l2 loss and the exact expansion
 
 
+def _build_hess_obj(case):
+    """the loss of a `hess` case, built the way the stream builds it: optionally the Hessian of the
+    base loss is taken (and used) *before* the scaled copy is made"""
+    t, n, cplx = case["tree"], case["n"], case["cplx"]
+    if t["k"] == "mul" and case.get("touch"):
+        base = G.build(t["f"], n, cplx)
+        _ = base.hessian
+        return t["c"] * base if t["side"] == "l" else base * t["c"]
+    f = G.build(t, n, cplx)
+    if case.get("touch"):
+        _ = f.hessian
+    return f
+
+
 def hess_oracle(case):
     import scico.numpy as snp
 
     common.setup_scico()
     n, cplx = case["n"], case["cplx"]
-    f = G.build(case["tree"], n, cplx)
+    f = _build_hess_obj(case)
     dt = np.complex128 if cplx else np.float64
     x, d = G.dec(case["x"], (n,), cplx), G.dec(case["d"], (n,), cplx)
     X, D = snp.array(np.asarray(x, dtype=dt)), snp.array(np.asarray(d, dtype=dt))
@@ -767,8 +880,10 @@ def stream_hess(ctx, model):
         c = G.dyscalar(rng)
         tt = {"k": "mul", "c": c, "side": "r", "f": t} if scaled else t
         x, d = G.dy(rng, (n,), cplx), G.dy(rng, (n,), cplx)
-        case = {"tree": tt, "n": n, "cplx": cplx, "x": G.enc(x), "d": G.enc(d)}
-        f = G.build(tt, n, cplx)
+        touch = bool(rng.random() < 0.7)
+        case = {"tree": tt, "n": n, "cplx": cplx, "x": G.enc(x), "d": G.enc(d), "touch": touch}
+        f = _build_hess_obj(case)
+        ctx.count(f"hess:hessian-taken-before-scaling={touch and scaled}")
         seff = s * c if scaled else s
         A = G.op_matrix(op, n)
         wv = [1.0] * m if w is None else w
@@ -833,11 +948,19 @@ HEAP_KINDS = ["SquaredL2Loss", "Loss+L1", "Loss+Huber", "SquaredL2SquaredAbsLoss
 
 
 def run_history(mk, ops):
-    """replay a history on real objects"""
+    """replay a history on real objects (`touch` = take `obj.hessian` and apply it once: no effect
+    on the model, which has no cache)"""
     objs = []
     for op in ops:
         k = op["k"]
-        if k == "new":
+        if k == "touch":
+            o = objs[op["obj"]]
+            if hasattr(o, "hessian"):
+                try:
+                    _ = o.hessian
+                except NotImplementedError:
+                    pass
+        elif k == "new":
             objs.append(mk(op["s"]))
         elif k == "mul":
             objs.append(objs[op["obj"]] * op["c"] if op.get("side", "r") == "r" else op["c"] * objs[op["obj"]])
@@ -870,6 +993,12 @@ def heap_oracle_factory(kind, seed_state):
                 ri = float(np.real(np.sum(np.conj(g) * d)))
                 if abs(fd - ri) > 1e-5 * (1 + abs(fd) + abs(float(o(X)))):
                     return {"object": i, "scale": float(o.scale), "x": G.enc(x), "d": G.enc(d), "re_inner_grad_d": ri, "finite_difference": fd}
+                if case["kind"] == "SquaredL2Loss":
+                    h = 2.0**-4
+                    sd = (float(o(X + h * Dd)) - 2 * float(o(X)) + float(o(X - h * Dd))) / (h * h)
+                    hd = re_inner(o.hessian(Dd), Dd)
+                    if abs(sd - hd) > 1e-7 * (1 + abs(hd)):
+                        return {"object": i, "scale": float(o.scale), "x": G.enc(x), "d": G.enc(d), "second_difference": sd, "Re<Hd,d>": hd}
         return None
 
     return oracle
@@ -901,8 +1030,12 @@ def stream_heap(ctx, model):
                 cnt += 1
             else:
                 ops.append({"k": "set", "obj": int(rng.integers(cnt)), "s": G.dyscalar(rng)})
+            if rng.random() < 0.35:
+                ops.append({"k": "touch", "obj": int(rng.integers(cnt))})
         mops = []
         for op in ops:
+            if op["k"] == "touch":
+                continue
             o = {"k": op["k"]}
             for key in ("s", "c"):
                 if key in op:
@@ -941,6 +1074,13 @@ def stream_heap(ctx, model):
             if not (common.allclose(g.real, want.real, TOLK) and common.allclose(g.imag, want.imag, TOLK)):
                 ctx.disagree("heap.grad", case, {"object": i, "grad": G.enc(g)}, {"grad_scale": sg, "grad": G.enc(want)}, oracle=orc)
                 break
+            if kind == "SquaredL2Loss":
+                hx = np.asarray(o.hessian(X)).ravel().astype(np.complex128)
+                wanth = se * np.asarray(unit.hessian(X)).ravel().astype(np.complex128)
+                ctx.count("heap:hessian-compared")
+                if not (common.allclose(hx.real, wanth.real, TOLK) and common.allclose(hx.imag, wanth.imag, TOLK)):
+                    ctx.disagree("heap.hessian", case, {"object": i, "hessian(x)": G.enc(hx)}, {"scale": se, "hessian(x)": G.enc(wanth)}, oracle=orc)
+                    break
 
 
 # --------------------------------------------------------------------------------------------
@@ -1183,12 +1323,13 @@ def correspond(ctx, model):
     common.setup_scico()
     warnings.filterwarnings("ignore", message="Casting complex values to real")
     for stream in (run_corpus, stream_boundary, stream_fn, stream_blocks, stream_single, stream_real_arg, stream_div_reject,
-                   stream_jac, stream_function, stream_hess, stream_heap, stream_autograd_api):
+                   stream_jac, stream_jac_mixed, stream_function, stream_hess, stream_heap, stream_autograd_api):
         _guard(ctx, model, stream)
 
 
 HUBER0 = "huber-nonsep-grad-at-zero"
 ISOTV = "isotv-noncircular-grad-nan"
+JACMIX = "jacobian-include-eval-mixed-dtype"
 
 
 def nan_grad_but_differentiable(f, X, g, shape):
@@ -1238,6 +1379,33 @@ def findings(ctx, model):
                 "finite_difference_along_[1,-2,0.5]": 0.0, "dtypes": bad}}, True, "HuberNorm(separable=False).grad(0) is NaN")
     else:
         ctx.known_finding(HUBER0, False)
+    # linop.jacobian(F, u, include_eval=True).adj for a real -> complex operator
+    import jax.numpy as jnp
+    from scico import linop
+    from scico.operator import Operator
+
+    Ar = jnp.asarray(np.array([[1.0 + 1.0j, 2.0], [0.5j, -1.0]]))
+    Fr = Operator((2,), output_shape=(2,), eval_fn=lambda x: Ar @ x, input_dtype=np.float64, output_dtype=np.complex128)
+    ur = snp.array(np.array([1.0, -2.0]))
+    wr = snp.array(np.array([1.0 + 0.5j, -1.0j]))
+    try:
+        linop.jacobian(Fr, ur, include_eval=True).adj(wr)
+        raised = None
+    except Exception as e:  # noqa: BLE001
+        raised = repr(e)[:120]
+    ok_plain = np.allclose(np.asarray(linop.jacobian(Fr, ur, include_eval=False).adj(wr)), np.real(np.conj(np.asarray(Ar)).T @ np.asarray(wr)))
+    if not ok_plain:
+        ctx.violation({"kind": "failing-input", "op": "jac.jacobian.adj", "failing": {"operator": "x -> A x, A=[[1+1j,2],[0.5j,-1]], real input",
+                       "u": [1.0, -2.0], "w": "[1+0.5j, -1j]", "what": "jacobian(...).adj(w) != Re(A^H w)"}}, True, "jacobian adj of a real->complex operator")
+    if raised is not None:
+        if ctx.is_known(JACMIX):
+            ctx.known_finding(JACMIX, True, raised)
+        else:
+            ctx.violation({"kind": "failing-input", "op": "jac.jacobian.adj.reject", "failing": {
+                "operator": "x -> A x, A=[[1+1j,2],[0.5j,-1]], input float64, output complex128", "u": [1.0, -2.0],
+                "include_eval": True, "adj_raised": raised}}, True, "jacobian(include_eval=True).adj raises for mixed dtypes")
+    else:
+        ctx.known_finding(JACMIX, False)
     # IsotropicTVNorm with non-circular boundary: structurally zero difference pair at the last pixel
     shape = (3, 4)
     f = functional.IsotropicTVNorm(circular=False, input_shape=shape, input_dtype=np.float64)
